@@ -88,3 +88,68 @@ def run_movegen_families(chk, families, nshards, density, shards=None):
         out = json.loads(vlib.harness(hb, ["replay-positions", p]))
         return out, p
     return vlib.pmap(one, jobs, n=16), jobs
+
+
+def mc_game(chk, depth, workers=8):
+    """Bounded exhaustive check of ChessGame (CodeView => PropertyView)."""
+    roots = os.path.join(chk.outdir, "mc_roots.ndjson")
+    r = vlib.sh(["python3", os.path.join(vlib.VERIF, "tools", "fen2json.py"),
+                 os.path.join(vlib.VERIF, "data", "mc_roots.txt")])
+    open(roots, "w").write(r.stdout)
+    cfg = os.path.join(chk.outdir, "MC_Game.cfg")
+    gen_cfg(cfg, {"MaxDepth": depth}, "SPECIFICATION Spec\nINVARIANT Inv\nPROPERTY UndoRestores\nCHECK_DEADLOCK FALSE\n")
+    res = vlib.tlc("MC_Game", cfg=cfg, env={"ROOTS": roots}, workers=workers, timeout=3400, xmx="12g",
+                   extra=["-coverage", "1"], dfs=False)
+    if res.error or not res.ok:
+        raise ToolError("MC_Game: the CodeView model violates a PropertyView invariant or TLC failed "
+                        "(this is a statement about the specification's transcription of the code; "
+                        "it needs a human):\n" + (res.error or res.stdout[-2000:]))
+    for act in ("Undo", "UndoNull"):
+        if res.coverage.get(act, (0, 0))[1] == 0 and res.coverage.get(act, (0, 0))[0] == 0:
+            raise ToolError("MC_Game: action %s never taken (vacuous model)" % act)
+    chk.add("states", res.distinct)
+    chk.add("transitions", res.states)
+    chk.cov["mc_depth"] = depth
+    chk.cov["mc_roots"] = 12
+    return res
+
+
+def gen_game(chk, mode, behaviours, steps, max_depth, jvms, roots_file=None):
+    """Gen_Game -simulate -> list of ndjson files of behaviours."""
+    roots = os.path.join(chk.outdir, "gen_roots.ndjson")
+    r = vlib.sh(["python3", os.path.join(vlib.VERIF, "tools", "fen2json.py"),
+                 roots_file or os.path.join(vlib.VERIF, "data", "roots.txt")])
+    open(roots, "w").write(r.stdout)
+    cfg = os.path.join(chk.outdir, "Gen_Game_%s.cfg" % mode)
+    gen_cfg(cfg, {"MODE": mode, "MaxDepth": max_depth, "Steps": steps},
+            "SPECIFICATION Spec\nINVARIANT Emit\nCHECK_DEADLOCK FALSE\n")
+    per = max(1, behaviours // jvms)
+
+    def one(i):
+        res = vlib.tlc("Gen_Game", cfg=cfg, env={"ROOTS": roots}, timeout=3400, xmx="2g", dfs=False,
+                       extra=["-simulate", "num=%d" % per, "-depth", str(steps + 10), "-seed", str(chk.seed * 131 + i)])
+        if res.error:
+            raise ToolError("Gen_Game: " + res.error)
+        gen = [d for t, d in res.reports if t == "GEN"]
+        p = os.path.join(chk.outdir, "game_%s_%d.ndjson" % (mode, i))
+        vlib.write_ndjson(p, gen)
+        return p, len(gen), res
+    return vlib.pmap(one, list(range(jvms)), n=jvms)
+
+
+def replay_games(chk, files):
+    hb = vlib.build_harness("dev")
+    tot = {"games": 0, "steps": 0, "distinct": 0, "special_moves": 0, "ops": {}}
+    for p, n, _ in files:
+        if n == 0:
+            continue
+        o = json.loads(vlib.harness(hb, ["replay-game", p]))
+        for k in ("games", "steps", "distinct", "special_moves"):
+            tot[k] += o[k]
+        for k, v in o["ops"].items():
+            tot["ops"][k] = tot["ops"].get(k, 0) + v
+        for s in o["samples"][:1]:
+            chk.sample(s, cap=6)
+        for m in o["mismatches"]:
+            yield m, p
+    chk.cov["replayed_behaviours"] = tot
